@@ -26,6 +26,44 @@ CLAIMED["C15"] = dict(
     note=TRUST + "strconv.ParseUint is an assumed contract (listed in the evidence). Not decided: that the deadline fires, cancellation propagation, release of blocked Recv/Send (liveness over goroutines); the serveGRPC refusal path is added when its partial contract is discharged.",
     ref="DESIGN.md section 5 C15")
 
+CLAIMED["C01"] = dict(
+    text=("Proof of the per-step contracts that carry routing soundness inside larking: the request-path lexer emits a well-formed alternating "
+          "separator/segment token sequence (PathToks) for every input string; variable.index implements, per pattern token, exactly the google.api.http "
+          "semantics ('/' one slash, LITERAL one equal segment, '*' exactly one segment, '**' everything up to the verb or the end) for every pattern and "
+          "token sequence (loop step clauses); path.search slices and indexes safely, takes a variable edge only after a slash token, binds the k-th capture "
+          "to the k-th template variable (depth ghost) and terminates; path.match composes them."),
+    note=TRUST + "Assumed, not proved: the trie invariant TrieWf (what addRule builds: well-formed variable patterns, non-nil children, depth bookkeeping), map contents at lookups (assume-at clauses listed in the evidence), parseParam/tokens.String as trusted pure functions, the read-only region of variable pattern arrays, the typed conversions in encoding/json, protojson, base64.",
+    ref="DESIGN.md section 5 C01")
+CLAIMED["C02"] = dict(
+    text=("Partial proof: capture lengths are exact (the step clauses of variable.index are equalities, so every instantiation of a template is matched "
+          "by that template's own edges — the obligation that '{name=books/**}:read' violated before the fix), the path lexer accepts every path made of "
+          "documented characters within the token limit, and search tries the literal edge before any variable (program order in the verified body)."),
+    note=TRUST + "Not decided by contracts: equality of whole tries under permutation of registration order, the sorted-variables invariant of addVariable, search exhaustion as a recursive statement; TrieWf assumed as for C01.",
+    ref="DESIGN.md section 5 C02")
+CLAIMED["C06"] = dict(
+    text=("Proof over the abstract byte stream, for all read schedules: the three stream codecs' ReadNext return buffers that are exactly a window of the "
+          "stream (Buffered: nothing lost, duplicated or reordered), frame messages as specified (varint length / brace fold / fixed chunk), never return a partial "
+          "message with an error, and report a clean io.EOF only when no message is in progress; WriteNext writes exactly the framed message; readAll conserves the body."),
+    note=TRUST + "io.Reader/io.Writer/io.ReadFull/protowire are assumed contracts (interface contract of Read: any 0<=n<=len(p) with any error). Not decided: WebSocket framing (gobwas/ws), HTTP/2 transport ordering, gRPC-web base64 flushing, the proxy's goroutines; streamHTTP.readMsg and the gRPC frame reader are added as their contracts are discharged.",
+    ref="DESIGN.md section 5 C06")
+CLAIMED["C08"] = dict(
+    text=("Proof with a symbolic limit: every size check of the stream codecs, readAll and writeAll refuses only messages over the limit and accepts messages exactly at "
+          "the limit; a returned message never exceeds the limit; 64-bit length prefixes (up to 2^64-1) cannot bypass the check."),
+    note=TRUST + "Not decided yet: the gRPC frame reader's post-decompression size and the WebSocket reader (their contracts are added when discharged); gzip internals.",
+    ref="DESIGN.md section 5 C08")
+CLAIMED["C09"] = dict(
+    text=("No-panic and termination obligations (index/slice bounds, nil dereference, failed type assertion, explicit panic, negative make, callee preconditions, loop and recursion variants) "
+          "discharged for every function under contract on the request paths: status tables, grpc-message encoding, timeout decoding, stream codecs, readAll/writeAll, "
+          "lexers, token search, variable.index, path.search/match."),
+    note=TRUST + "Covers only the functions listed in the evidence (functions_under_contract); panics inside dependencies, goroutine bodies and resource exhaustion are not decided. Reader-loop termination assumes ReaderProgress.",
+    ref="DESIGN.md section 5 C09")
+CLAIMED["C17"] = dict(
+    text=("Proof, with reader schedule, carry-over, capacity, message length and limit all symbolic: CodecProto/CodecJSON/codecHTTPBody ReadNext are fragmentation-invariant "
+          "(result stated in stream coordinates only), the bytes after n are exactly the unread remainder (Buffered on the returned buffer), n <= limit, oversize "
+          "and >= 2^63 prefixes are errors, and WriteNext emits varint(len) ++ payload (proto) or the payload (JSON, HttpBody)."),
+    note=TRUST + "Assumed: io.Reader/io.ReadFull/io.Writer interface contracts, protowire.ConsumeVarint/AppendVarint (round-trip axiom). JSON frame leastness (the first balanced object) is not proved, only that the returned frame ends at a brace returning the depth to 0.",
+    ref="DESIGN.md section 5 C17")
+
 NA = {
     "C03": "round trip through encoding/json, protojson, base64, gzip and protobuf reflection: larking's share is a kind-dispatch table whose every arm delegates to a dependency; a contract would axiomatise the libraries, not decide the code (DESIGN 5 C03)",
     "C10": "observational equivalence of two systems over whole call histories, decided by grpc-go streams and two pump goroutines; the VC generator drops goroutines and no per-function contract expresses it (DESIGN 5 C10)",
